@@ -3,11 +3,12 @@
 //! ops (struct ids as in harness/gen/structs.json; back-end `lossy` | `lossless`):
 //!   derive.from   <id> <backend> <K> <V> <E>
 //!       build the paragraph [(k_i, v_i)], `from_paragraph` -> value x;
-//!       -> `ok [K'] [V']` = `to_paragraph(x)` items in the same back-end | `err x<message>`
+//!       -> `ok [K'] [V'] x<text>` = `to_paragraph(x)` items in the same back-end and its printed text
+//!          (lossy: `Display`, lossless: the tree's text) | `err x<message>`
 //!   derive.update <id> <backend> <K> <V> <E> <PK> <PV> <PT>
 //!       x as above; prior paragraph [(pk_i, pv_i)] (lossless: parsed from the text PT, which renders
 //!       the same entries with comment lines in between); `x.update_paragraph(&mut prior)`
-//!       -> `ok [K'] [V']` = items of the updated paragraph | `src-err x<message>`
+//!       -> `ok [K'] [V'] x<text>` = items and printed text of the updated paragraph | `src-err x<message>`
 //!   E: per input entry `-` | `o<hex>` | `e<hex>`: for fields whose leaf codec is *external* to the
 //!   Lean model (Relations, Url, Version, dates …) the generator supplies what the real leaf codec
 //!   answers on that text (canonical re-serialisation or error text); the Lean model of the macro
@@ -16,7 +17,10 @@
 //! Worker-side oracle (the property, evaluated on the real derived code): round trip through the
 //! paragraph in both back-ends, declaration order and omission of absent optionals, update reads
 //! back / removes absent / leaves foreign entries (and, lossless, comment lines and the text of
-//! untouched entries) alone, error strings name the field, both back-ends agree.
+//! untouched entries) alone, error strings name the field, both back-ends agree (values and the printed
+//! text of `to_paragraph`).  The round-trip clause is evaluated on values inside the leaf codecs' domains
+//! only (`text_in_domain`: a text whose value does not survive its own codec, e.g. `Sources: a\n\n`, is
+//! answered and compared with the model but not held against the property).
 use crate::util::*;
 use crate::Resp;
 use deb822_lossless::{FromDeb822, FromDeb822Paragraph, ToDeb822, ToDeb822Paragraph};
@@ -107,6 +111,24 @@ pub struct SynOne {
 #[derive(FromDeb822, ToDeb822)]
 pub struct SynEmpty {}
 
+/// the macro's front end (`is_option`, `extract_field_attributes`, `Ident::to_string`): raw identifiers
+/// (the default key keeps the `r#` prefix), `Option` written with a path and with a leading `::`,
+/// several `#[deb822(..)]` attributes on one field (a later item overrides an earlier one, the others
+/// are merged), `field` given twice inside one attribute
+#[derive(FromDeb822, ToDeb822)]
+pub struct SynFront {
+    r#type: String,
+    r#match: Option<String>,
+    path_opt: std::option::Option<u32>,
+    abs_opt: ::std::option::Option<String>,
+    #[deb822(field = "First")]
+    #[deb822(field = "Second", serialize_with = syn_ser_yesno)]
+    #[deb822(deserialize_with = syn_de_yesno)]
+    merged: bool,
+    #[deb822(field = "Twice-A", field = "Twice-B")]
+    twice: Option<String>,
+}
+
 // ------------------------------------------------------------------ dynamic access to the derived code
 
 trait Val {
@@ -170,6 +192,7 @@ fn all_ops() -> &'static Vec<Ops> {
             ops!("derive.SynMixed", SynMixed),
             ops!("derive.SynOne", SynOne),
             ops!("derive.SynEmpty", SynEmpty),
+            ops!("derive.SynFront", SynFront),
         ]
     })
 }
@@ -311,11 +334,19 @@ fn expected_order(row: &StructRow, items: &[(String, String)]) -> Option<String>
 }
 
 /// round trip of a value through a paragraph, in both back-ends; `None` = fine
-fn roundtrip_oracle(ops: &Ops, id: &str, x: &dyn Val) -> Option<String> {
+fn roundtrip_oracle(ops: &Ops, id: &str, x: &dyn Val, in_domain: bool) -> Option<String> {
     let a = normalise(id, lp_items(&x.to_lp()));
     let b = normalise(id, ll_items(&x.to_ll()));
     if a != b {
         return Some(format!("to_paragraph differs between back-ends: lossy {:?} lossless {:?}", a, b));
+    }
+    // the printed texts agree as well (C16_to_paragraph_text_agrees)
+    let (ta, tb) = (x.to_lp().to_string(), x.to_ll().to_string());
+    if ta != tb {
+        return Some(format!("to_paragraph prints differently: lossy {:?} lossless {:?}", ta, tb));
+    }
+    if !in_domain {
+        return None;
     }
     match (ops.from_lp)(&x.to_lp()) {
         Ok(x2) => {
@@ -556,7 +587,12 @@ fn value_in_domain(row: &StructRow, toks: &[&str]) -> bool {
                 // splitLinesCodec.canon: no element contains a newline; [""] prints like []
                 l.iter().all(|w| !w.contains('\n')) && !(l.len() == 1 && l[0].is_empty())
             } else if f.de.ends_with("deserialize_list") {
-                l.iter().all(|w| !w.is_empty() && !w.contains('\n') && !w.ends_with('\r'))
+                // LinesDom, exact (C16_lines_roundtrip_iff): [] or: no line feed inside, the last element
+                // not empty, no element but the last ends in CR
+                match l.split_last() {
+                    None => true,
+                    Some((last, init)) => !last.is_empty() && l.iter().all(|w| !w.contains('\n')) && init.iter().all(|w| !w.ends_with('\r')),
+                }
             } else {
                 l.iter().all(|w| !w.is_empty() && !w.chars().any(|c| c.is_whitespace()))
             }
@@ -564,6 +600,60 @@ fn value_in_domain(row: &StructRow, toks: &[&str]) -> bool {
         Some(_) => true,
         None => false,
     })
+}
+
+/// is the value a leaf codec reads from text `t` inside the codec's round-trip domain?  Only two codec
+/// pairs of the workspace read values they do not write back (Props/C16More, Part 3):
+///   `lines()` / `join("\n")` (ftpmaster `Sources`, `Binaries`): `LinesDom` — the empty list, or the last
+///       line is not empty and no line but the last ends in CR (`a\n\n` reads `["a", ""]`, written `a\n`);
+///   the buildinfo environment (`lines()`, `K=V` sorted, `join("\n")`): no `K=V` piece ends in CR.
+/// Every other deserialiser returns values its serialiser writes back.
+fn text_in_domain(f: &FieldRow, t: &str) -> bool {
+    if f.de.ends_with("deserialize_list") {
+        // LinesDom of Props/C16More (no element of `lines()` contains a line feed)
+        let l: Vec<&str> = t.lines().collect();
+        match l.split_last() {
+            None => true,
+            Some((last, init)) => !last.is_empty() && init.iter().all(|w| !w.ends_with('\r')),
+        }
+    } else if f.de.ends_with("deserialize_env") {
+        t.lines().all(|l| !l.ends_with('\r'))
+    } else {
+        true
+    }
+}
+
+/// all present own fields of the paragraph (first occurrence of each key, as `get` reads) are in their
+/// codecs' domains
+fn para_in_domain(row: &StructRow, ks: &[String], vs: &[String]) -> bool {
+    row.fields.iter().all(|f| match ks.iter().position(|k| *k == f.key) {
+        Some(i) => text_in_domain(f, &vs[i]),
+        None => true,
+    })
+}
+
+/// the lines of a paragraph text that belong to a comment or to an entry of a foreign key, in order,
+/// without their line terminators (the last line may be unterminated)
+fn foreign_lines(row: &StructRow, text: &str) -> Vec<String> {
+    let mut keep = vec![];
+    let mut cur_own = false;
+    for line in text.split_inclusive('\n') {
+        let bare = line.strip_suffix('\n').unwrap_or(line);
+        if line.starts_with('#') {
+            keep.push(bare.to_string());
+        } else if line.starts_with(' ') || line.starts_with('\t') {
+            if !cur_own {
+                keep.push(bare.to_string());
+            }
+        } else {
+            let k = line.split(':').next().unwrap_or("");
+            cur_own = own(row, k);
+            if !cur_own {
+                keep.push(bare.to_string());
+            }
+        }
+    }
+    keep
 }
 
 // ------------------------------------------------------------------ handlers
@@ -589,7 +679,8 @@ pub fn handle(op: &str, a: &[&str]) -> Option<Resp> {
                 Ok(x) => {
                     let items = if lossless { ll_items(&x.to_ll()) } else { lp_items(&x.to_lp()) };
                     let items = normalise(id, items);
-                    let mut fail = roundtrip_oracle(ops, id, x.as_ref());
+                    let text = if lossless { x.to_ll().to_string() } else { x.to_lp().to_string() };
+                    let mut fail = roundtrip_oracle(ops, id, x.as_ref(), para_in_domain(row, &ks, &vs));
                     if fail.is_none() {
                         fail = expected_order(row, &items);
                     }
@@ -601,7 +692,7 @@ pub fn handle(op: &str, a: &[&str]) -> Option<Resp> {
                         }
                         Err(e) => fail = Some(format!("other back-end fails: {}", e)),
                     }
-                    Resp::with(format!("ok {}", show_items(&items)), fail)
+                    Resp::with(format!("ok {} {}", show_items(&items), es(&text)), fail)
                 }
                 Err(msg) => {
                     let mut fail = error_oracle(row, &ks, &msg);
@@ -627,18 +718,20 @@ pub fn handle(op: &str, a: &[&str]) -> Option<Resp> {
             };
             let want = normalise(id, lp_items(&x.to_lp()));
             let prior: Vec<(String, String)> = pks.iter().cloned().zip(pvs.iter().cloned()).collect();
-            let (after, text_check): (Vec<(String, String)>, Option<String>) = match *backend {
+            let in_domain = para_in_domain(row, &ks, &vs);
+            let (after, after_text, text_check): (Vec<(String, String)>, String, Option<String>) = match *backend {
                 "lossy" => {
                     let mut p = lp_of(&pks, &pvs);
                     x.upd_lp(&mut p);
                     // read back
                     let rb = (ops.from_lp)(&p);
                     let fail = match rb {
+                        _ if !in_domain => None,
                         Ok(y) if normalise(id, lp_items(&y.to_lp())) == want => None,
                         Ok(y) => Some(format!("updated paragraph reads back as {:?}, expected {:?}", lp_items(&y.to_lp()), want)),
                         Err(e) => Some(format!("updated paragraph does not read back: {}", e)),
                     };
-                    (lp_items(&p), fail)
+                    (lp_items(&p), p.to_string(), fail)
                 }
                 "lossless" => {
                     let mut p: LL = if *pt == "-" {
@@ -658,40 +751,21 @@ pub fn handle(op: &str, a: &[&str]) -> Option<Resp> {
                     x.upd_ll(&mut p);
                     let rb = (ops.from_ll)(&p);
                     let mut fail = match rb {
+                        _ if !in_domain => None,
                         Ok(y) if normalise(id, lp_items(&y.to_lp())) == want => None,
                         Ok(y) => Some(format!("updated paragraph reads back as {:?}, expected {:?}", lp_items(&y.to_lp()), want)),
                         Err(e) => Some(format!("updated paragraph does not read back: {}", e)),
                     };
-                    // formatting: every line of the prior text that belongs to a foreign entry or is
-                    // a comment is still there, in the same order
+                    // formatting (C16_lossless_update_keeps_foreign_nodes / _foreign_text): the lines of the
+                    // prior text that are comments or belong to an entry of a foreign key are, byte for byte
+                    // and in the same order, the comment / foreign lines of the new text — nothing lost,
+                    // nothing added, nothing re-indented; the only admissible difference is the terminator
+                    // of a previously unterminated last line (lines are compared without terminators)
+                    let after_text = p.to_string();
                     if fail.is_none() {
-                        let after_text = p.to_string();
-                        let mut keep: Vec<&str> = vec![];
-                        let mut cur_own = false;
-                        for line in before_text.split_inclusive('\n') {
-                            if line.starts_with('#') {
-                                keep.push(line);
-                            } else if line.starts_with(' ') || line.starts_with('\t') {
-                                if !cur_own {
-                                    keep.push(line);
-                                }
-                            } else {
-                                let k = line.split(':').next().unwrap_or("");
-                                cur_own = own(row, k);
-                                if !cur_own {
-                                    keep.push(line);
-                                }
-                            }
-                        }
-                        let mut pos = 0usize;
-                        for l in keep {
-                            match after_text[pos..].find(l) {
-                                Some(i) => pos += i + l.len(),
-                                None => {
-                                    fail = Some(format!("line {:?} of the prior text is gone or moved: before {:?} after {:?}", l, before_text, after_text));
-                                    break;
-                                }
-                            }
+                        let (fb, fa) = (foreign_lines(row, &before_text), foreign_lines(row, &after_text));
+                        if fb != fa {
+                            fail = Some(format!("comment / foreign lines changed: {:?} -> {:?} (before {:?} after {:?})", fb, fa, before_text, after_text));
                         }
                         // and the result is still one paragraph that re-parses to the same items (only
                         // claimed when every value has a text form of its own: lines non-empty, trimmed)
@@ -704,7 +778,7 @@ pub fn handle(op: &str, a: &[&str]) -> Option<Resp> {
                             }
                         }
                     }
-                    (ll_items(&p), fail)
+                    (ll_items(&p), after_text, fail)
                 }
                 _ => return None,
             };
@@ -721,7 +795,7 @@ pub fn handle(op: &str, a: &[&str]) -> Option<Resp> {
                     fail = Some(format!("absent optional field {} still in the paragraph", f.key));
                 }
             }
-            Some(Resp::with(format!("ok {}", show_items(&normalise(id, after))), fail))
+            Some(Resp::with(format!("ok {} {}", show_items(&normalise(id, after)), es(&after_text)), fail))
         }
         ("derive.value", [id, backend, toks @ ..]) => {
             let ops = all_ops().iter().find(|o| o.id == *id)?;
@@ -788,13 +862,13 @@ pub fn pool(f: &FieldRow) -> (Vec<&'static str>, Vec<&'static str>) {
         "License" => (vec!["GPL-2+", "GPL-2+\ntext line\n.\nmore", "\nonly text", "", "MIT\n"], vec![]),
         "Signature" => (vec!["/usr/share/keyrings/k.gpg", "\n-----BEGIN PGP PUBLIC KEY BLOCK-----\n.\nmQ==\n-----END PGP PUBLIC KEY BLOCK-----", "a\nb", ""], vec![]),
         "HashSet<RepositoryType>" => (vec!["deb", "deb deb-src", "deb-src\ndeb", "", "deb deb"], vec!["rpm", "deb rpm", "Deb"]),
-        "HashMap<String, String>" => (vec!["A=1\n", "A=1", "A=1\nB=x=y\n", "", "A=1\nA=2"], vec!["novalue", "A=1\nB"]),
+        "HashMap<String, String>" => (vec!["A=1\n", "A=1", "A=1\nB=x=y\n", "", "A=1\nA=2", "B=1\nA=2\r", "A=1\r\nB=2"], vec!["novalue", "A=1\nB", "A=1\n\n"]),
         "PathBuf" => (vec!["/build/x-1.0", "rel/path", ""], vec![]),
         "Vec<String>" => {
             if de.ends_with("package_list") || de.ends_with("copyrights") {
                 (vec!["a deb x optional", "l1\nl2", "", "a\n", "2020 A\n2021 B"], vec![])
             } else if de.ends_with("deserialize_list") {
-                (vec!["a", "a\nb", "", "a\n", "a\n\nb", "a\r\nb", "foo_1.0-1 [amd64, i386]\nlibfoo1_1.0-1 [all]", "a b"], vec![])
+                (vec!["a", "a\nb", "", "a\n", "a\n\nb", "a\r\nb", "foo_1.0-1 [amd64, i386]\nlibfoo1_1.0-1 [all]", "a b", "a\n\n", "\n", "a\r", "a\r\n\r\n", "\na"], vec![])
             } else {
                 (vec!["a", "a b c", "", " a  b ", "a\nb", "main contrib", "x #y z", "RCS/*,v a,b"], vec![])
             }
@@ -825,22 +899,44 @@ fn cols(row: &StructRow, entries: &[(String, String)]) -> [String; 3] {
     [elist(&ks), elist(&vs), ex.join(",")]
 }
 
-/// lossless prior text: the entries with comment lines sprinkled in (single-line values only get
-/// `K: v`, multi-line values continuation lines)
-fn render_prior(entries: &[(String, String)], comments: bool) -> String {
+/// lossless prior text in one of several layouts (all of them read back as the same entries):
+///   0  canonical `K: v`, continuation lines indented by one blank, no comments
+///   1  the same with a comment line before every second entry and a trailing comment
+///   2  `K:v` — no blank after the colon; continuation lines indented by a tab
+///   3  `K:\tv` — a tab after the colon; continuation lines indented by three blanks
+///   4  `K:   v` — three blanks; continuation lines indented by tab + blank, then by two blanks, ...
+///   5  canonical, a comment line directly before EVERY entry (so also between two duplicates of an
+///      owned key and directly before an entry that the update removes) and a trailing comment
+///      WITHOUT a final line feed
+///   6  layout 4 with the comments of layout 5
+fn render_prior(entries: &[(String, String)], style: u8) -> String {
     let mut t = String::new();
+    let (sep, indents): (&str, &[&str]) = match style {
+        2 => ("", &["\t"]),
+        3 => ("\t", &["   "]),
+        4 | 6 => ("   ", &["\t ", "  ", " \t", "    "]),
+        _ => (" ", &[" "]),
+    };
     for (i, (k, v)) in entries.iter().enumerate() {
-        if comments && i % 2 == 1 {
-            t.push_str("# a comment\n");
+        match style {
+            1 if i % 2 == 1 => t.push_str("# a comment\n"),
+            5 | 6 => t.push_str(&format!("# before {}\n", i)),
+            _ => {}
         }
         let mut lines = v.split('\n');
-        t.push_str(&format!("{}: {}\n", k, lines.next().unwrap_or("")));
-        for l in lines {
-            t.push_str(&format!(" {}\n", l));
+        let first = lines.next().unwrap_or("");
+        // an empty first line keeps nothing after the colon (blanks there would be the value's)
+        t.push_str(&format!("{}:{}{}\n", k, if first.is_empty() { "" } else { sep }, first));
+        for (j, l) in lines.enumerate() {
+            t.push_str(&format!("{}{}\n", indents[j % indents.len()], l));
         }
     }
-    if comments && !entries.is_empty() {
-        t.push_str("# trailing comment\n");
+    if !entries.is_empty() {
+        match style {
+            1 => t.push_str("# trailing comment\n"),
+            5 | 6 => t.push_str("#trailing, unterminated"),
+            _ => {}
+        }
     }
     t
 }
@@ -849,8 +945,9 @@ fn render_prior(entries: &[(String, String)], comments: bool) -> String {
 fn text_safe(entries: &[(String, String)]) -> bool {
     entries.iter().all(|(k, v)| {
         !k.is_empty()
-            && k.chars().all(|c| c.is_ascii_graphic() && c != ':' && c != '#')
+            && k.chars().all(|c| c.is_ascii_graphic() && c != ':')
             && !k.starts_with('-')
+            && !k.starts_with('#')
             && v.split('\n').enumerate().all(|(i, l)| (l.trim() == l && !l.is_empty() && !(i > 0 && l.starts_with('#'))) || (i == 0 && l.is_empty() && !v.contains('\n')))
     })
 }
@@ -894,15 +991,15 @@ pub fn generate_c16(tier: &str, seed: u64, out: &mut Out) {
             out.req("derive.update", &[row.id.clone(), "lossy".into(), c[0].clone(), c[1].clone(), c[2].clone(), elist(&pk), elist(&pv), "-".into()]);
             out.req("derive.update", &[row.id.clone(), "lossless".into(), c[0].clone(), c[1].clone(), c[2].clone(), elist(&pk), elist(&pv), "-".into()]);
             if text_safe(prior) {
-                for comments in [false, true] {
+                for style in 0..=6u8 {
                     out.req(
                         "derive.update",
-                        &[row.id.clone(), "lossless".into(), c[0].clone(), c[1].clone(), c[2].clone(), elist(&pk), elist(&pv), es(&render_prior(prior, comments))],
+                        &[row.id.clone(), "lossless".into(), c[0].clone(), c[1].clone(), c[2].clone(), elist(&pk), elist(&pv), es(&render_prior(prior, style))],
                     );
                 }
                 // the same prior text without its final newline: a field appended by the update must
                 // not be glued onto the unterminated last line
-                let t = render_prior(prior, false);
+                let t = render_prior(prior, 0);
                 if t.ends_with('\n') && !prior.is_empty() {
                     out.req(
                         "derive.update",
@@ -1021,7 +1118,12 @@ pub fn generate_c16(tier: &str, seed: u64, out: &mut Out) {
     // ---- directly constructed values (public-field structs)
     let sx = |s: &str| format!("s:{}", es(s));
     let lx = |l: &[&str]| format!("l:{}", elist(l));
-    let lists: Vec<Vec<&str>> = vec![vec![], vec!["main"], vec!["main", "contrib"], vec!["a b"], vec![""], vec!["a", ""], vec!["l1\nl2"], vec!["a\r"]];
+    // incl. the values of audit D3 (C16_lines_witnesses): [""], ["a",""], ["a\r","b"] do not survive the
+    // `lines()` codec; ["","a"], ["a","","b"], ["a\r"] do (exact domain LinesDom)
+    let lists: Vec<Vec<&str>> = vec![
+        vec![], vec!["main"], vec!["main", "contrib"], vec!["a b"], vec![""], vec!["a", ""], vec!["l1\nl2"], vec!["a\r"],
+        vec!["a\r", "b"], vec!["", "a"], vec!["a", "", "b"],
+    ];
     for b in ["lossy", "lossless"] {
         for c in &lists {
             for a in &lists {
